@@ -183,9 +183,7 @@ func Observe(n *Node, w *world) (*Observation, error) {
 	sort.Slice(hs, func(i, j int) bool { return hs[i].Less(hs[j]) })
 	for _, hh := range hs {
 		c := bc.GetContractState(hh)
-		if c == nil {
-			cs = append(cs, "k:"+hh.StringLE()[:8]+":none")
-		} else {
+		if c != nil {
 			cs = append(cs, fmt.Sprintf("k:%s:id=%d:upd=%d:nef=%d", hh.StringLE()[:8], c.ID, c.UpdateCounter, c.NEF.Checksum))
 		}
 	}
